@@ -91,10 +91,10 @@ func clip(s string) string {
 }
 
 func run(t *rapid.T, prop string) {
-	b := fam.Bounds{MaxRows: 16, MaxCols: 4, MaxMembers: 24}
+	b := fam.Bounds{MaxRows: 16, MaxCols: 4, MaxMembers: 24, HugeOdds: 4000}
 	maxOps, maxBuild := 4, 5
 	if core.Thorough() {
-		b = fam.Bounds{MaxRows: 40, MaxCols: 5, MaxMembers: 40}
+		b = fam.Bounds{MaxRows: 40, MaxCols: 5, MaxMembers: 40, HugeOdds: 2000}
 		maxOps, maxBuild = 7, 8
 	}
 	w := fam.NewWorld(t, b)
